@@ -150,3 +150,13 @@ def run(ctx):
         extra = [pipelib.scenario(ctx.rng, ctx.rng.choice(["basic", "monitor", "abort", "fault", "api"])) for _ in range(3 * n if ctx.tier != "thorough" else n)]
         ctx.count("search:extra-cases", len(extra))
         run_cases(ctx, exe, orac, extra, prop, "x")
+
+    # ---- thorough: independent re-check of the compiled proofs with coqchk (kernel re-check of the property file and everything it
+    # depends on; lists the axioms: expected <none>)
+    if ctx.tier == "thorough" and os.path.exists(os.path.join(ctx.coqdir, "Properties_%s.vo" % prop)):
+        rc, o, e = vlib.sh("timeout 1500 coqchk -o -silent -Q . Pipe Pipe.Properties_%s" % prop, cwd=ctx.coqdir, timeout=1600)
+        txt = o + e
+        ok = rc == 0 and "Axioms: <none>" in txt and "type-in-type: <none>" in txt
+        ctx.extra["coqchk"] = "ok: axioms <none>, no type-in-type, no unsafe fixpoints, no assumed positivity" if ok else txt[-800:]
+        if not ok:
+            ctx.broken_tie("coqchk does not accept Pipe.Properties_%s" % prop, txt[-800:])
